@@ -40,6 +40,9 @@ SoupCore == {"put ", "let ", "say ", "listen ", "if ", "else ", "while ", "build
 SoupTiny == {"put ", "let ", "if ", "else ", "while ", "rock ", "roll ", "taking ", "takes ", "into ", "be ", "with ", "at ", "is ",
              "says ", "- ", NL, ", ", "'s ", "foo ", "Bar ", "the ", "it ", "5 ", "and ", "like ", "give ", "back "}
 
+(* word length against byte length: fragments that join into words around 8 / 16 / 17 characters whose letters take 1, 2 or 3 bytes *)
+SoupLong == {"~~~~", "%%%", "aaaaaaaa", "~", "a", "'s", " ", NL, "is", "5"}
+
 PrefixNone  == ""
 PrefixQNL   == "\"" \o NL                      \* an open string literal that already spans a line break
 PrefixCNL   == "x (" \o NL \o NL               \* an open comment spanning two line breaks after a word
